@@ -164,7 +164,7 @@ func (c *c18Case) Key() string { return core.KeyOf(c) }
 var c18Paths = []string{"a", "d", "d/x", "d/y", "e", "zz", "d/zz", "e/zz", "d-z/x", "d-z"}
 var c18Dirs = []string{".", "d", "e", "zz", "d-z"}
 var c18WideDirs = []string{".", "w", "zz"}
-var c18Globs = []string{"*", "d/*", "*/x", "?", "*/*", "["}
+var c18Globs = []string{"*", "d/*", "*/x", "?", "*/*", "[", "a", "d/x", "zz", `\a`, `d/\x`, `d\-z/x`, `d/[x]`, `\*`, "d/x/", "./a", "d"}
 
 type c18Model struct {
 	layers []fs.FS // non-nil layers in order
